@@ -216,9 +216,14 @@ func (e *JSchemaError) pointerToTheErrorCharacter() string {
 
 	content := e.file.Content()
 	begin := e.lineBeginning()
-	spaces := content.SubLow(begin).CountSpacesFromLeft()
+	// The indentation of the quoted line only: counting on into the next lines made
+	// the offset negative for an error on a line break (strings.Repeat panicked).
+	spaces := content.Sub(begin, e.lineEnd()).CountSpacesFromLeft()
 
 	i := int(e.index) - int(begin) - spaces
+	if i < 0 {
+		i = 0
+	}
 	return strings.Repeat("-", i) + "^"
 }
 
